@@ -1409,7 +1409,51 @@ def G17_orientation_assumptions(repo, clause, scope=ALL_LIB):
                 uv = fn.rd.unique_value(e)
                 return uv is not None and _is_cross(uv[1], depth - 1)
             return False
+        def _cross_call(e, depth=3):
+            # the np.cross(...) call an expression stands for (same look-through as _is_cross)
+            if isinstance(e, ast.Call) and call_name(e) == "cross":
+                return e
+            if depth <= 0:
+                return None
+            if isinstance(e, ast.Subscript) and isinstance(const_value(e.slice), int):
+                base = e.value
+                if isinstance(base, ast.Name):
+                    uv = fn.rd.unique_value(base) if fn.stmt_of(base) is not None else None
+                    base = uv[1] if uv is not None else base
+                if isinstance(base, ast.Call) and call_name(base) in ("array", "asarray", "stack", "vstack") and base.args:
+                    base = base.args[0]
+                if isinstance(base, (ast.List, ast.Tuple)) and 0 <= const_value(e.slice) < len(base.elts):
+                    return _cross_call(base.elts[const_value(e.slice)], depth - 1)
+            if isinstance(e, ast.Name) and fn.stmt_of(e) is not None:
+                uv = fn.rd.unique_value(e)
+                return _cross_call(uv[1], depth - 1) if uv is not None else None
+            return None
+
+        def _row_origin(e):
+            # (statement, position) when `e` is one of the targets of `a, b, c = <matrix>`; (text of M, i) for M[i]
+            if isinstance(e, ast.Name):
+                for st_ in fn.own_nodes():
+                    if isinstance(st_, ast.Assign) and len(st_.targets) == 1 and isinstance(st_.targets[0], (ast.Tuple, ast.List)) and len(st_.targets[0].elts) == 3:
+                        for i_, t_ in enumerate(st_.targets[0].elts):
+                            if isinstance(t_, ast.Name) and t_.id == e.id:
+                                return (id(st_), i_)
+            if isinstance(e, ast.Subscript) and isinstance(const_value(e.slice), int):
+                return (ast.unparse(e.value), const_value(e.slice))
+            return None
+
+        def _is_triple_product(d):
+            # dot(a, cross(b, c)) with a, b, c the three rows of ONE matrix (a signed volume) - not the distance of a point from a plane, dot(normal, pos)
+            for i_ in (0, 1):
+                cr = _cross_call(d.args[i_])
+                if cr is None or len(cr.args) < 2:
+                    continue
+                o = [_row_origin(d.args[1 - i_]), _row_origin(cr.args[0]), _row_origin(cr.args[1])]
+                if all(x is not None for x in o) and len({x[0] for x in o}) == 1 and sorted(x[1] for x in o) == [0, 1, 2]:
+                    return True
+            return False
         for d in [x for x in fn.own_nodes() if isinstance(x, ast.Call) and call_name(x) in ("dot", "vdot", "inner") and len(x.args) == 2 and any(_is_cross(a_) for a_ in x.args)]:
+            if not _is_triple_product(d):
+                continue
             par = fn.parents.get(d)
             if isinstance(par, ast.BinOp) and isinstance(par.op, ast.Div) and par.left is d and not any(
                     isinstance(a, ast.Call) and call_name(a) in ("abs", "fabs", "absolute") for a in fn.ancestors(d)):
